@@ -344,7 +344,47 @@ func (g G) FaultLike() string {
 }
 
 // Valid returns a statement that is usually accepted: corpus or generated.
+// Wide returns a statement with ONE wide construct (n siblings): an IN list, a
+// function call, a VALUES row or a select list - breadth, where Nested is depth.
+func Wide(kind, n int) string {
+	var sb strings.Builder
+	item := func(i int) string {
+		switch i % 4 {
+		case 0:
+			return fmt.Sprint(i)
+		case 1:
+			return fmt.Sprintf("'v%d'", i)
+		case 2:
+			return fmt.Sprintf("c%d", i)
+		default:
+			return fmt.Sprintf("ARRAY[%d]", i)
+		}
+	}
+	for i := 0; i < n; i++ {
+		if i > 0 {
+			sb.WriteString(", ")
+			if i%16 == 0 {
+				sb.WriteString("\n ")
+			}
+		}
+		sb.WriteString(item(i))
+	}
+	switch kind % 4 {
+	case 0:
+		return "SELECT a FROM t WHERE c NOT IN (" + sb.String() + ") AND d = 1"
+	case 1:
+		return "SELECT COALESCE(" + sb.String() + ") FROM t"
+	case 2:
+		return "INSERT INTO t VALUES (" + sb.String() + ")"
+	default:
+		return "SELECT " + sb.String() + " FROM t ORDER BY 1"
+	}
+}
+
 func (g G) Valid() string {
+	if g.n(40, "wide") == 39 {
+		return Wide(g.n(4, "widekind"), []int{255, 256, 257, 600, 1100}[g.n(5, "widen")])
+	}
 	switch g.n(4, "src") {
 	case 1:
 		return corpus[g.n(len(corpus), "corp")]
